@@ -1,10 +1,8 @@
 SPECIFICATION Spec
 CONSTANTS
   Feats = {"type:str", "lit:5", "ast:For", "call:print", "op:+", "foreign"}
-  MaxOcc = 2
+  MaxOcc = 1
   MaxLen = 3
-  Flags = {}
+  Flags = {"stale_failure"}
 INVARIANT HistoryIndependent
-INVARIANT NothingSurvives
-CONSTRAINT Export
 CHECK_DEADLOCK FALSE
